@@ -340,6 +340,25 @@ Theorem attested_sale_not_repeated : forall (chain nonce contract : Z) (client :
 Proof. exact try_sale_not_repeated. Qed.
 Print Assumptions attested_sale_not_repeated.
 
+(** Clause 5, the authorisation over time.  A governance decision replaces the whole table of sale
+    contracts (last entry per chain wins); a chain that is not in the new list is not authorised,
+    stays so through every history without another governance decision (faults, legacy imports and
+    genesis round trips included), and every sale reported from it — also with the contract that used
+    to be authorised — changes nothing. *)
+Theorem dropped_chain_stays_unauthorised : forall (s0 : state) (l : list (Z * Z)) (xs : list xop) (c : Z),
+  inv_struct s0 -> funders s0 <> Some [] -> ~ In c (map fst l) -> Forall not_set_contracts xs ->
+  let s := xrun (fst (step s0 (SetContracts l))) xs in
+  contracts s c = None /\
+  forall contract client amount,
+    step s (Sale c contract client amount) = (s, Err ENoContract).
+Proof. exact dropped_chain_stays_unauthorised_thm. Qed.
+Print Assumptions dropped_chain_stays_unauthorised.
+
+Theorem set_contracts_table : forall (s : state) (l : list (Z * Z)) (c : Z),
+  contracts (fst (step s (SetContracts l))) c = assoc (rev l) c.
+Proof. exact set_contracts_table_thm. Qed.
+Print Assumptions set_contracts_table.
+
 (** A premise that is needed.  [op_wf] (premise of escrow_covers_licences) asks, among others,
     that governance does not configure the module account itself as a funder; the code does not
     refuse that, and then the escrow stops covering the licences: *)
@@ -361,7 +380,9 @@ Print Assumptions funder_premise_is_needed_refuted.
     functions call (nothing that moves coins or accounts; InitGenesis stores each licence under its
     own ClientAddress; Validate checks Params only); TryAttestation writes the block height, the nonce
     cursor and the observed flag before processAttestation, is called from attestationTally only,
-    which runs inside skyway's EndBlocker under a deferred recover. *)
+    which runs inside skyway's EndBlocker under a deferred recover; SetAllLighNodeSaleContracts walks
+    the whole table deleting every entry (the callback returns true = go on; IterAllFnc stops on
+    false) and then saves the new entries. *)
 Theorem model_is_of_current_source_round2 :
   Gen.C18.create_collab_calls = ["accountKeeper.AddressCodec"; "accountKeeper.HasAccount"; "accountKeeper.NewAccount";
                                  "accountKeeper.SetAccount"; "bankKeeper.SendCoinsFromAccountToModule"]%string /\
@@ -388,7 +409,10 @@ Theorem model_is_of_current_source_round2 :
                                    "processAttestation"; "emitObservedEvent"]%string /\
   Gen.C18.try_attestation_callers = ["attestationTally"]%string /\
   Gen.C18.endblocker_defers_recover = true /\
-  Gen.C18.endblocker_calls = ["createBatch"; "attestationTally"; "pruneAttestations"]%string.
+  Gen.C18.endblocker_calls = ["createBatch"; "attestationTally"; "pruneAttestations"]%string /\
+  Gen.C18.set_contracts_calls = ["IterAllFnc"; "Delete"; "Save"]%string /\
+  Gen.C18.set_contracts_wipe_callback = "{ st.Delete(key) return true }"%string /\
+  Gen.C18.iter_all_fnc_stop_test = "if !fnc(iterator.Key(), val) { return nil }"%string.
 Proof. exact source_round2. Qed.
 Print Assumptions model_is_of_current_source_round2.
 
